@@ -2,6 +2,7 @@ import RimeModel.C04.MenuSpec
 import RimeModel.C04.SegLemmas
 import RimeModel.C04.MergedLemmas
 import RimeModel.C04.UniqLemmas
+import RimeModel.C04.UniqMenu
 /-!
 # C04 — menu pages are windows onto one stable, duplicate-free candidate list
 
@@ -238,9 +239,9 @@ theorem distinct_output [DecidableEq τ] (text : α → τ) (src : List α) :
 /-! ## (c) duplicate-free -/
 
 /-- **uniq_nodup.**  When the uniquified translation is consumed directly by `Menu::Prepare` (the
-uniquifier is the last filter), the texts of the menu cache stay pairwise different after every
-`Prepare` — for the code before and after commit 59481ca alike — and `Prepare` stops only when enough
-is cached or the translation is exhausted. -/
+uniquifier is the last filter), the texts of the menu cache are pairwise different after every
+sequence of `Prepare` calls — for the code before and after commit 59481ca alike (`fixed` is arbitrary):
+the menu has pushed every candidate it pulled into the shared cache before it calls `Next()`. -/
 theorem uniq_nodup [DecidableEq τ] (text : α → τ) (fixed : Bool) (src : List α) (ns : List Nat) :
     let m := ns.foldl (fun m n => (FMenu.prepare text fixed m n).1) (FMenu.ofUniq text fixed src)
     ((m.cache.map (fun g => text g.first)).Nodup) := by
@@ -288,6 +289,39 @@ theorem fixed_single_char_nodup [DecidableEq τ] (text : α → τ) (isTable sin
   have := hinv.nodup
   rw [List.nodup_append] at this
   exact this.1
+
+/-- **uniq_menu_is_menu.**  The menu over a uniquified translation (optionally with the prefetch queue of
+a `single_char_filter` applied after it) behaves, at the level of the genuine first item of every
+entry (its text, comment, preedit), exactly like a `Menu` over one fixed list: projecting the
+stateful pair to a plain `Menu` commutes with `Prepare`, the count returned is the same, and the
+represented list never changes.  So all the laws above hold for uniquified menus too, although the
+uniquifier rewrites cached entries (it replaces them by `UniquifiedCandidate`s and appends to them). -/
+theorem uniq_menu_is_menu [DecidableEq τ] (text : α → τ) (fixed : Bool) (m : FMenu α τ)
+    (hinv : FMenu.Inv text fixed m) (hsub : FMenu.EmittedSub text fixed m) (n : Nat) :
+    FMenu.proj text (m.prepare text fixed n).1 = ((FMenu.proj text m).prepare n).1 ∧
+    (m.prepare text fixed n).2 = ((FMenu.proj text m).prepare n).2 ∧
+    (FMenu.proj text (m.prepare text fixed n).1).Repr (FMenu.proj text m).full ∧
+    FMenu.Inv text fixed (m.prepare text fixed n).1 ∧ FMenu.EmittedSub text fixed (m.prepare text fixed n).1 := by
+  obtain ⟨a, b⟩ := fmenu_prepareLoop_proj text fixed n _ m hinv hsub (Nat.le_refl _)
+  have a' : FMenu.proj text (m.prepare text fixed n).1 = ((FMenu.proj text m).prepare n).1 := a
+  refine ⟨a', ?_, ?_, FMenu.prepareLoop_inv text fixed n _ m hinv, b⟩
+  · show (m.prepare text fixed n).1.cache.length = ((FMenu.proj text m).prepare n).1.cache.length
+    rw [← a']
+    show _ = (firsts (m.prepare text fixed n).1.cache).length
+    rw [firsts_length]
+  · rw [a']
+    exact prepare_repr rfl n
+
+/-- **uniq_menu_list.**  Both ways engine.cc can build a uniquified menu start inside the invariant of
+`uniq_menu_is_menu`; with the uniquifier as last filter the menu's list is `dedupBy text src []` —
+the first occurrence of every text, which is how the session model's driver computes its menus. -/
+theorem uniq_menu_list [DecidableEq τ] (text : α → τ) (fixed : Bool) (isTable single : α → Bool) (src : List α) :
+    (FMenu.Inv text fixed (FMenu.ofUniq text fixed src) ∧ FMenu.EmittedSub text fixed (FMenu.ofUniq text fixed src) ∧
+      (FMenu.proj text (FMenu.ofUniq text fixed src)).full = dedupBy text src []) ∧
+    (FMenu.Inv text true (FMenu.ofUniqThenSingleChar text true isTable single src) ∧
+      FMenu.EmittedSub text true (FMenu.ofUniqThenSingleChar text true isTable single src)) :=
+  ⟨⟨FMenu.ofUniq_inv text fixed src, fmenu_ofUniq_emittedSub text fixed src, fmenu_ofUniq_full text fixed src⟩,
+   ⟨FMenu.ofUniqThenSingleChar_inv text isTable single src, fmenu_ofUniqThenSingleChar_emittedSub text isTable single src⟩⟩
 
 /-- **old_uniq_counterexample.**  The uniquifier before commit 59481ca consulted only the menu cache.
 A consumer that never exposes a cache (as `SingleCharFirstTranslation::Rearrange` does) gets
